@@ -392,6 +392,9 @@ func GenC01(r *hx.Rand, thorough bool) History {
 	if r.Chance(6) {
 		return genLongWALRace(r)
 	}
+	if r.Chance(6) {
+		return genRestartIdleSnapshot(r)
+	}
 	h := History{Cfg: GenCfg(r, thorough)}
 	n := 8 + r.Intn(25)
 	reader := false
@@ -598,9 +601,42 @@ func genLongWALRace(r *hx.Rand) History {
 	return h
 }
 
+// genRestartIdleSnapshot: litestream is restarted (new DB object) on a database whose replicated
+// frames are still in the WAL, only idle syncs follow (the in-memory WAL position stays unset), then a
+// snapshot is taken: its content must be the state of the TXID it is labelled with.
+func genRestartIdleSnapshot(r *hx.Rand) History {
+	ps := []int{512, 1024, 4096}[r.Intn(3)]
+	h := History{Cfg: Cfg{PageSize: ps, AutoVacuum: "none", MinCheckpointPageN: 100000, TruncatePageN: 500000}}
+	for i, n := 0, 1+r.Intn(4); i < n; i++ {
+		h.Ops = append(h.Ops, genAppOp(r, ps))
+		if r.Chance(50) {
+			h.Ops = append(h.Ops, Op{K: "sync"})
+		}
+	}
+	h.Ops = append(h.Ops, Op{K: "syncwait"})
+	h.Ops = append(h.Ops, Op{K: []string{"close", "down", "crash"}[r.Intn(3)]})
+	if h.Ops[len(h.Ops)-1].K != "close" {
+		h.Ops = append(h.Ops, Op{K: "up"})
+	} else {
+		h.Ops = append(h.Ops, Op{K: "up"})
+	}
+	for i, n := 0, r.Intn(3); i < n; i++ {
+		h.Ops = append(h.Ops, Op{K: "sync"})
+	}
+	h.Ops = append(h.Ops, Op{K: "snap"})
+	if r.Chance(50) {
+		h.Ops = append(h.Ops, genAppOp(r, ps), Op{K: "sync"})
+	}
+	h.Ops = append(h.Ops, Op{K: "syncwait"})
+	return h
+}
+
 func GenC02(r *hx.Rand, thorough bool) History {
 	if r.Chance(15) {
 		return genLongWALRace(r)
+	}
+	if r.Chance(8) {
+		return genRestartIdleSnapshot(r)
 	}
 	h := History{Cfg: GenCfg(r, thorough)}
 	ps := h.Cfg.PageSize
